@@ -39,6 +39,8 @@ func pick(t *rapid.T, label string, ws []wchoice) string {
 type gen struct {
 	t    *rapid.T
 	nval int
+	// written: point keys set so far (ingested tables prefer to overwrite them)
+	written []string
 }
 
 func (g *gen) prefix(label string) string {
@@ -90,6 +92,7 @@ func (g *gen) writeOp(label string) dbm.Op {
 	case "set", "merge":
 		o.A = g.key(label + "k")
 		o.V, o.VLen = g.value(label + "v")
+		g.written = append(g.written, o.A)
 	case "del":
 		o.A = g.key(label + "k")
 	case "delrange", "rkdel":
@@ -104,6 +107,59 @@ func (g *gen) writeOp(label string) dbm.Op {
 		o.S = rapid.IntRange(1, 4).Draw(g.t, label+"rs")
 	}
 	return o
+}
+
+// tables draws 1-2 small disjoint tables of point sets / deletes, each inside a
+// window of one or two prefixes: narrow enough to be enclosed by the bounds of
+// an existing table, which makes the ingestion probe that table's data for
+// overlap (reads that the armed rules can fail).
+func (g *gen) tables(label string) [][]dbm.Op {
+	nt := rapid.IntRange(1, 2).Draw(g.t, label+"nt")
+	lo := 0
+	var out [][]dbm.Op
+	for i := 0; i < nt && lo < len(dbm.Prefixes); i++ {
+		l := fmt.Sprintf("%st%d", label, i)
+		a := rapid.IntRange(lo, min(lo+5, len(dbm.Prefixes)-1)).Draw(g.t, l+"a")
+		b := min(a+rapid.IntRange(0, 1).Draw(g.t, l+"w"), len(dbm.Prefixes)-1)
+		var ops []dbm.Op
+		seen := map[string]bool{}
+		for j, m := 0, rapid.IntRange(1, 3).Draw(g.t, l+"n"); j < m; j++ {
+			k := mkKey(dbm.Prefixes[rapid.IntRange(a, b).Draw(g.t, fmt.Sprintf("%sp%d", l, j))], rapid.IntRange(0, dbm.MaxSuffix).Draw(g.t, fmt.Sprintf("%ss%d", l, j)))
+			if i == 0 && len(g.written) > 0 && rapid.Bool().Draw(g.t, fmt.Sprintf("%sw%d", l, j)) {
+				// overwrite a key that exists (the first table only: the tables of
+				// one ingestion stay disjoint because lo moves past it)
+				// mostly a recently written one (likely still in L0 or a memtable)
+				w := g.written
+				if len(w) > 6 && rapid.IntRange(0, 2).Draw(g.t, fmt.Sprintf("%swr%d", l, j)) > 0 {
+					w = w[len(w)-6:]
+				}
+				k = rapid.SampledFrom(w).Draw(g.t, fmt.Sprintf("%swk%d", l, j))
+			}
+			if seen[k] {
+				continue
+			}
+			seen[k] = true
+			o := dbm.Op{K: "set", A: k}
+			if rapid.IntRange(0, 4).Draw(g.t, fmt.Sprintf("%sd%d", l, j)) == 0 {
+				o.K = "del"
+			} else {
+				o.V, o.VLen = g.value(fmt.Sprintf("%sv%d", l, j))
+			}
+			ops = append(ops, o)
+		}
+		out = append(out, ops)
+		lo = b + 1
+		for _, o := range ops {
+			pi := 0
+			for q, pre := range dbm.Prefixes {
+				if splitPrefix(o.A) == pre {
+					pi = q
+				}
+			}
+			lo = max(lo, pi+1)
+		}
+	}
+	return out
 }
 
 func (g *gen) iterOpts(label string) dbm.IterOpts {
@@ -169,6 +225,10 @@ func tweakOptions(t *rapid.T, o *dbm.OptPlan) {
 	o.CacheSize = rapid.SampledFrom([]int64{1 << 10, 1 << 10, 64 << 10}).Draw(t, "fcache")
 	o.CheckLevels = false
 	o.FilesCheck = false
+	// Sometimes only manual compactions: flushed tables pile up in L0 (and stay
+	// where a manual compaction put them), so reads, ingestion overlap probes
+	// and excises work on a multi-level LSM instead of a single L6 run.
+	o.DisableAutoCompaction = rapid.IntRange(0, 3).Draw(t, "fnoauto") == 0
 }
 
 // ruleMotifs are (kinds, classes, needs-restart) combinations that hit the
@@ -292,7 +352,7 @@ func genPlan(t *rapid.T) Plan {
 			p.Steps = append(p.Steps, Step{K: "faultsoff"})
 			continue
 		}
-		ws := []wchoice{{"write", 32}, {"batch", 14}, {"get", 12}, {"scan", 8}, {"iter", 7}, {"flush", 9}, {"compact", 5}, {"wait", 3}, {"restart", 4}, {"crashcheck", 3}}
+		ws := []wchoice{{"write", 32}, {"batch", 14}, {"get", 12}, {"scan", 8}, {"iter", 7}, {"flush", 9}, {"compact", 5}, {"wait", 3}, {"restart", 4}, {"crashcheck", 3}, {"ingest", 5}}
 		switch {
 		case i < setup:
 			ws = []wchoice{{"write", 10}, {"batch", 30}}
@@ -328,6 +388,23 @@ func genPlan(t *rapid.T) Plan {
 			o := g.iterOpts(l + "o")
 			s.IO = &o
 			s.IOps = g.iterOps(l+"i", rapid.IntRange(2, 10).Draw(t, l+"nops"), o.Lower == "" && o.Upper == "")
+		case "ingest":
+			s.Tables = g.tables(l)
+			if rapid.IntRange(0, 9).Draw(t, l+"ex") < 4 {
+				// with an excise span; sometimes a pure DB.Excise
+				s.A, s.B = g.span(l + "exsp")
+				if rapid.IntRange(0, 9).Draw(t, l+"exonly") < 3 {
+					s.Tables = nil
+				}
+			}
+			// everything before an ingestion is made durable first (see exec)
+			if len(p.Steps) > 0 && i-1 != offAt && i-1 > setup {
+				if p.Opt.DisableWAL || rapid.Bool().Draw(t, l+"preflush") {
+					p.Steps[len(p.Steps)-1] = Step{K: "flush"}
+				} else {
+					p.Steps[len(p.Steps)-1] = Step{K: "write", Sync: true, Ops: []dbm.Op{g.writeOp(l + "pre")}}
+				}
+			}
 		case "compact":
 			s.A, s.B = g.span(l + "sp")
 			if rapid.Bool().Draw(t, l+"whole") {
@@ -336,6 +413,26 @@ func genPlan(t *rapid.T) Plan {
 			s.Par = rapid.Bool().Draw(t, l+"par")
 		}
 		p.Steps = append(p.Steps, s)
+	}
+	// Read rules are often armed exactly at an ingestion / excise: its overlap
+	// probes and bound computations then hit the fault, not a later read.
+	var ingestAt []int
+	for j, st := range p.Steps {
+		if st.K == "ingest" && j < offAt {
+			ingestAt = append(ingestAt, j)
+		}
+	}
+	for i := range rules {
+		r := &p.Rules[i]
+		if len(ingestAt) > 0 && !rules[i].restart && contains(r.Kinds, "read") && (len(r.Classes) == 0 || contains(r.Classes, "sst")) &&
+			rapid.IntRange(0, 9).Draw(t, fmt.Sprintf("r%dating", i)) < 6 {
+			r.From = rapid.SampledFrom(ingestAt).Draw(t, fmt.Sprintf("r%datingj", i))
+			if r.Nth > 0 {
+				r.Nth = rapid.SampledFrom([]int{1, 1, 1, 2, 2, 3, 4, 6}).Draw(t, fmt.Sprintf("r%datingn", i))
+			} else if r.To < r.From {
+				r.To = r.From
+			}
+		}
 	}
 	for i, ri := range rules {
 		if !ri.restart {
@@ -368,6 +465,41 @@ func genPlan(t *rapid.T) Plan {
 				}
 			}
 		}
+	}
+	// Probe motif: a table holding several keys is flushed and stays in L0 (no
+	// automatic compactions), the store is (sometimes) reopened so that nothing
+	// of it is cached, and a table with one key strictly inside its bounds is
+	// ingested (or a span inside its bounds excised) while a one-shot read rule
+	// is armed: the fault hits the reads that decide the target level / the
+	// bounds of what remains.
+	if offAt-(setup+1) >= 5 && rapid.IntRange(0, 11).Draw(t, "probemotif") == 0 {
+		j := rapid.IntRange(setup+1, offAt-4).Draw(t, "probeat")
+		np := rapid.IntRange(3, 6).Draw(t, "probenp")
+		p0 := rapid.IntRange(0, len(dbm.Prefixes)-np).Draw(t, "probep0")
+		var ops []dbm.Op
+		for q := 0; q < np; q++ {
+			tag, vl := g.value(fmt.Sprintf("probev%d", q))
+			ops = append(ops, dbm.Op{K: "set", A: mkKey(dbm.Prefixes[p0+q], rapid.IntRange(0, dbm.MaxSuffix).Draw(t, fmt.Sprintf("probes%d", q))), V: tag, VLen: vl})
+		}
+		mid := ops[rapid.IntRange(1, np-2).Draw(t, "probemid")]
+		p.Steps[j] = Step{K: "write", Sync: true, Ops: ops}
+		p.Steps[j+1] = Step{K: "flush"}
+		p.Steps[j+2] = Step{K: rapid.SampledFrom([]string{"restart", "wait", "get"}).Draw(t, "probecold"), A: ops[0].A}
+		if rapid.IntRange(0, 3).Draw(t, "probeex") == 0 {
+			// the span of the middle key's prefix: [prefix, next prefix)
+			pi := 0
+			for q, pre := range dbm.Prefixes {
+				if pre == splitPrefix(mid.A) {
+					pi = q
+				}
+			}
+			p.Steps[j+3] = Step{K: "ingest", A: dbm.Prefixes[pi], B: dbm.Prefixes[pi+1]}
+		} else {
+			g.nval++
+			p.Steps[j+3] = Step{K: "ingest", Tables: [][]dbm.Op{{{K: "set", A: mid.A, V: fmt.Sprintf("v%d", g.nval)}}}}
+		}
+		p.Opt.DisableAutoCompaction = true
+		p.Rules[0] = Rule{Kinds: []string{"read"}, Classes: []string{"sst"}, From: j + 3, Nth: rapid.IntRange(1, 6).Draw(t, "proben")}
 	}
 	p.End.Crash = rapid.IntRange(0, 9).Draw(t, "endcrash") < 4
 	p.End.Surv = []int{0, 1, rapid.IntRange(2, 1000).Draw(t, "surv")}
